@@ -816,3 +816,68 @@ def check_rip_model(ctx, rep, f, rule='R-MODEL.M4'):
     else:
         rep.holds(rule, f, 'def ' + f.name, 'on generalised NFAs with up to two inner states and independent letters on every edge the remaining expression equals the textbook elimination in Kleene algebra')
     return True
+
+
+def check_gnfa_edges_model(ctx, rep, f, rule='R-MODEL.M4'):
+    """dfa_to_gnfa, evaluated with the analyser's finite-model evaluator on a DFA whose state pairs are joined by one, two
+    and three parallel transitions (loops and non-loops): every edge of the generalised NFA must carry an expression equal
+    (Kleene algebra) to the SUM of the symbols of the parallel transitions, start -> q0 and F -> accept carry 1, the two new
+    states are new, and nothing else is added.  The construction handles each transition on its own and groups by state
+    pair, so one, two and three parallel symbols cover "first, second, any later".  Returns True when decided."""
+    import collections
+    from .. import shapes
+    from ..miniexec import Interp, Obj, Raised
+    from ..abseval import Unsupported as U2
+    classes = {'Zero': lambda: ('Zero',), 'One': lambda: ('One',), 'Symbol': lambda a: ('Symbol', a), 'Iteration': lambda x: ('Iteration', x),
+               'Sum': lambda x, y: ('Sum', x, y), 'Concat': lambda x, y: ('Concat', x, y),
+               'GNFA': lambda Q, Sigma, delta, q_start, q_accept, *rest, **kw: Obj('GNFA', Q=Q, Sigma=Sigma, delta=delta, q_start=q_start, q_accept=q_accept)}
+    trans = {('p', 'a'): 'q', ('p', 'b'): 'q', ('p', 'c'): 'q', ('p', 'd'): 'p', ('q', 'a'): 'p', ('q', 'b'): 'p', ('q', 'c'): 'q', ('q', 'd'): 'q',
+             ('start1', 'a'): 'start1', ('start1', 'b'): 'p', ('start1', 'c'): 'p', ('start1', 'd'): 'p'}
+    D = Obj('DFA', Q={'p', 'q', 'start1'}, Sigma={'a', 'b', 'c', 'd'}, delta=dict(trans), q0='p', F={'q', 'start1'})
+    try:
+        try:
+            G = Interp(ctx, classes=classes).call(f, [D])
+        except Raised as ex:
+            rep.violates(rule, f, 'def ' + f.name, 'the construction raises {} on a DFA with parallel transitions'.format(ex.name))
+            return True
+        if not isinstance(G, Obj) or G._cls != 'GNFA':
+            raise U2('result is not a GNFA')
+        d1 = G._f['delta']
+        qs, qa = G._f['q_start'], G._f['q_accept']
+        bad = None
+        if qs in D._f['Q'] or qa in D._f['Q'] or qs == qa:
+            bad = 'the new start / accept states ({}, {}) are not new, distinct states (the DFA has a state start1)'.format(qs, qa)
+        elif set(G._f['Q']) != D._f['Q'] | {qs, qa}:
+            bad = 'the state set of the result is {} instead of Q plus the two new states'.format(sorted(G._f['Q']))
+        get = lambda x, y: d1[x, y] if (x, y) in d1 else ('Zero',)
+        want = collections.defaultdict(list)
+        for (x, a), y in sorted(trans.items()):
+            want[x, y].append(a)
+        expected = {}
+        for (x, y), syms in want.items():
+            t = ('Symbol', syms[0])
+            for a in syms[1:]:
+                t = ('Sum', t, ('Symbol', a))
+            expected[x, y] = t
+        expected[qs, 'p'] = ('One',)
+        for q in D._f['F']:
+            expected[q, qa] = ('One',)
+        if bad is None:
+            keys = set(expected) | {k for k in d1.keys()}
+            for k in sorted(keys, key=repr):
+                got = get(*k)
+                if not (isinstance(got, tuple) and got and got[0] in shapes.ARITY):
+                    raise U2('an edge does not carry a regular expression')
+                w = expected.get(k, ('Zero',))
+                if not ka.equivalent(shapes.ka_of(w), shapes.ka_of(got))[0]:
+                    bad = 'the edge {} -> {} carries {} where the parallel transitions of the DFA give {}: transitions are lost (or invented), so the extracted expression denotes another language'.format(
+                        k[0], k[1], ka.show(shapes.ka_of(got)), ka.show(shapes.ka_of(w)))
+                    break
+    except (U2, Unsupported) as e:
+        rep.note('{}: finite-model evaluation not applicable ({})'.format(f.short, e))
+        return False
+    if bad:
+        rep.violates(rule, f, 'def ' + f.name, bad)
+    else:
+        rep.holds(rule, f, 'def ' + f.name, 'on a DFA with one, two and three parallel transitions between its states every edge of the generalised NFA carries the sum of the parallel symbols, start and accept edges carry 1, nothing else is added')
+    return True
